@@ -85,7 +85,7 @@ def model_check(ctx, quick, descs=None):
 GEN_TAIL = "SPECIFICATION GSpec\nINVARIANT EmitHist\nCHECK_DEADLOCK FALSE\n"
 
 
-MENU_N = 29          # descriptors m01..m29 of Pools!Menu12 (the name is historical)
+MENU_N = 31          # descriptors m01..m31 of Pools!Menu12 (the name is historical)
 
 
 def gen_cfg(mode, maxlen=3, selseed=1, selmod=12, menun=MENU_N):
